@@ -19,6 +19,8 @@ pub fn comp(name: &str, generic: &str, prefix: &[&str], inner: &[&Arg], suffix: 
 }
 pub fn value(v: &str) -> Arg { Arg { decls: vec![], text: v.to_string() } }
 
+/// Every generic type id of the core library (the `ID` constants under extensions/modules).
+pub const GENERIC_TYPE_IDS: [&str; 70] = ["AddMod", "AddModGate", "Array", "Bitwise", "Blake2sState", "BoundedInt", "BoundedIntGuarantee", "Box", "BuiltinCosts", "Circuit", "CircuitData", "CircuitDescriptor", "CircuitFailureGuarantee", "CircuitInput", "CircuitInputAccumulator", "CircuitModulus", "CircuitOutputs", "CircuitPartialOutputs", "ClassHash", "Const", "ContractAddress", "Coupon", "EcOp", "EcPoint", "EcState", "Enum", "Felt252Dict", "Felt252DictEntry", "GasBuiltin", "GasReserve", "IntRange", "InverseGate", "MulMod", "MulModGate", "NonZero", "Nullable", "Pedersen", "Poseidon", "RangeCheck", "RangeCheck96", "Secp256k1Point", "Secp256r1Point", "SegmentArena", "Sha256StateHandle", "Sha512StateHandle", "Snapshot", "Span", "SquashedFelt252Dict", "StorageAddress", "StorageBaseAddress", "Struct", "SubModGate", "System", "U128MulGuarantee", "U96Guarantee", "U96LimbsLtGuarantee", "Uninitialized", "bytes31", "felt252", "qm31", "u8", "u16", "u32", "u64", "u128", "i8", "i16", "i32", "i64", "i128"];
 pub const P: &str = "3618502788666131213697322783095070105623107215331596699973092056135872020481";
 pub const P_MINUS_1: &str = "3618502788666131213697322783095070105623107215331596699973092056135872020480";
 
